@@ -160,3 +160,100 @@ theorem ps13_spec (a b : Nat) (notes : List Row) (sp : List (String × Int × In
     simp only [List.getElem_map, hmem]
 
 end C17P
+
+namespace C17P
+open Model Model.Ps13 Gen
+
+/-- the order on rows that `rowLe` implements -/
+def rowKeyLe (r r' : Row) : Prop := r.1 < r'.1 ∨ (r.1 = r'.1 ∧ r.2 ≤ r'.2)
+
+theorem rowKeyLe_antisymm (a b : Row) : rowKeyLe a b → rowKeyLe b a → a = b := by
+  intro h1 h2
+  rcases h1 with h1 | ⟨h1, h1'⟩ <;> rcases h2 with h2 | ⟨h2, h2'⟩
+  · exact absurd h2 (lt_asymm h1)
+  · rw [h2] at h1; exact absurd h1 (lt_irrefl _)
+  · rw [h1] at h2; exact absurd h2 (lt_irrefl _)
+  · exact Prod.ext h1 (Int.le_antisymm h1' h2')
+
+theorem sortedRows_pairwise (notes : List Row) :
+    ((sortRows notes).map (·.1)).Pairwise rowKeyLe := by
+  rw [List.pairwise_map]
+  have := List.pairwise_mergeSort (le := rowLe) rowLe_trans rowLe_total notes.zipIdx
+  exact this.imp (fun h => by
+    simpa [rowLe, rowKeyLe, Bool.or_eq_true, Bool.and_eq_true, decide_eq_true_eq] using h)
+
+theorem sortedRows_perm (notes : List Row) : ((sortRows notes).map (·.1)).Perm notes := by
+  have := (sortRows_perm notes).map (·.1)
+  simpa using this
+
+/-- the sorted row sequence depends only on the multiset of rows -/
+theorem sortedRows_eq_of_perm (notes notes' : List Row) (h : notes.Perm notes') :
+    (sortRows notes).map (·.1) = (sortRows notes').map (·.1) := by
+  apply List.Perm.eq_of_pairwise (le := rowKeyLe)
+  · intro a b _ _; exact rowKeyLe_antisymm a b
+  · exact sortedRows_pairwise notes
+  · exact sortedRows_pairwise notes'
+  · exact ((sortedRows_perm notes).trans h).trans (sortedRows_perm notes').symm
+
+theorem sortBack_fst {α : Type} (idxs : List Nat) (vals : List α) (n : Nat)
+    (hlen : vals.length = idxs.length) (hperm : idxs.Perm (List.range n)) :
+    (((idxs.zip vals).mergeSort idxLe).map (·.1)) = List.range n := by
+  have hp := List.mergeSort_perm (idxs.zip vals) idxLe
+  apply List.Perm.eq_of_pairwise (le := fun a b => a ≤ b)
+  · intro a b _ _ h1 h2; omega
+  · have := List.pairwise_mergeSort (le := idxLe (α := α)) idxLe_trans idxLe_total (idxs.zip vals)
+    rw [List.pairwise_map]
+    exact this.imp (fun h => by simpa [idxLe] using h)
+  · exact List.pairwise_lt_range.imp (fun h => Nat.le_of_lt h)
+  · refine ((hp.map (·.1)).trans ?_).trans hperm
+    rw [List.map_fst_zip (by omega)]
+
+/-- pairing the rows with a list of (index, value) pairs whose indices are exactly 0..n-1 -/
+theorem zip_eq_map_of_fst_range {β : Type} (notes : List Row) (l : List (Nat × β))
+    (hfst : l.map (·.1) = List.range notes.length) :
+    notes.zip (l.map (·.2)) = l.map (fun p => ((notes[p.1]?).getD (0, 0), p.2)) := by
+  have hlen : l.length = notes.length := by
+    have := congrArg List.length hfst; simpa using this
+  apply List.ext_getElem
+  · simp [hlen]
+  · intro i h1 h2
+    have hi : i < l.length := by simpa using h2
+    have hi' : i < notes.length := by omega
+    have : (l.map (·.1))[i]'(by simpa using hi) = i := by simp only [hfst, List.getElem_range]
+    rw [List.getElem_map] at this
+    simp [this, hi']
+
+theorem zip_map_fst {α β γ : Type} (f : α → γ) : ∀ (l : List α) (vals : List β),
+    (l.zip vals).map (fun p => (f p.1, p.2)) = (l.map f).zip vals
+  | [], _ => by simp
+  | _ :: _, [] => by simp
+  | x :: xs, v :: vs => by simp [zip_map_fst f xs vs]
+
+/-- the (row, spelling) pairs of `ps13`, as a multiset, are the sorted rows paired with stage 1 -/
+theorem ps13_zip_perm (a b : Nat) (notes : List Row) (sp : List (String × Int × Int))
+    (h : ps13 a b notes = some sp) :
+    (notes.zip sp).Perm (((sortRows notes).map (·.1)).zip (stage1 a b ((sortRows notes).map (·.1)))) := by
+  unfold ps13 at h
+  split at h
+  · cases h
+  · simp only [Option.some.injEq] at h
+    subst h
+    have hperm : ((sortRows notes).map (·.2)).Perm (List.range notes.length) := by
+      have := (sortRows_perm notes).map (·.2)
+      simpa [List.range_eq_range'] using this
+    have hlen : (stage1 a b ((sortRows notes).map (·.1))).length = ((sortRows notes).map (·.2)).length := by
+      simp [stage1_length]
+    have hfst := sortBack_fst _ _ _ hlen hperm
+    rw [zip_eq_map_of_fst_range notes _ hfst]
+    have hp := List.mergeSort_perm (((sortRows notes).map (·.2)).zip (stage1 a b ((sortRows notes).map (·.1)))) idxLe
+    refine (hp.map _).trans ?_
+    have hmap : ((sortRows notes).map (·.2)).map (fun i => (notes[i]?).getD (0, 0)) = (sortRows notes).map (·.1) := by
+      rw [List.map_map]
+      apply List.map_congr_left
+      intro x hx
+      have hmem : x ∈ notes.zipIdx := (sortRows_perm notes).subset hx
+      rw [List.mem_zipIdx_iff_getElem?] at hmem
+      simp [hmem]
+    rw [zip_map_fst (fun i => (notes[i]?).getD (0, 0)), hmap]
+
+end C17P
